@@ -3,8 +3,8 @@ package packet
 import (
 	"bytes"
 
-	"github.com/Tnze/go-mc/nbt"
 	vp "github.com/Tnze/go-mc/internal/zzvp"
+	"github.com/Tnze/go-mc/nbt"
 )
 
 // zz_verif_c06r: reflect-driven combinators (Ary, Opt, NBTField) through the engine's reflect shim.
